@@ -36,6 +36,8 @@ type event struct {
 	C     string `json:"c"`
 	St    string `json:"st,omitempty"`
 	Val   string `json:"val"`
+	// Ids: the reply of List (abstract ids; an id nobody stores appears under its own text)
+	Ids []string `json:"ids"`
 }
 
 // history is one recorded round.
@@ -73,6 +75,9 @@ func (r *recorder) log(p *procLog, e event) {
 	}
 	e.stamp = atomic.AddInt64(&r.seq, 1)
 	e.P = p.name
+	if e.Ids == nil {
+		e.Ids = []string{}
+	}
 	p.events = append(p.events, e)
 }
 
@@ -114,7 +119,16 @@ func (t *tapStore) Delete(ids ...imap.InternalMessageID) error {
 }
 
 func (t *tapStore) Close() error                            { return t.inner.Close() }
-func (t *tapStore) List() ([]imap.InternalMessageID, error) { return t.inner.List() }
+func (t *tapStore) List() ([]imap.InternalMessageID, error) {
+	p := t.rec.me()
+	if p == nil { // not one of the recorded goroutines
+		return t.inner.List()
+	}
+	t.rec.log(p, event{E: "enter"})
+	ids, err := t.inner.List()
+	t.rec.log(p, event{E: "exit"})
+	return ids, err
+}
 
 // memStore is a trivially correct in-memory store (harness code). Under WriteControlledStore it lets
 // the lock table be exercised at a far higher call rate than the disk allows.
@@ -158,7 +172,13 @@ func (m *memStore) Delete(ids ...imap.InternalMessageID) error {
 
 func (m *memStore) Close() error { return nil }
 func (m *memStore) List() ([]imap.InternalMessageID, error) {
-	return nil, nil
+	m.mu.RLock()
+	defer m.mu.RUnlock()
+	out := make([]imap.InternalMessageID, 0, len(m.m))
+	for id := range m.m {
+		out = append(out, id)
+	}
+	return out, nil
 }
 
 type roundCfg struct {
@@ -258,6 +278,8 @@ func runRound(cfg roundCfg, round int, seed int64) (h *history, suspicious bool,
 					getPct = 50
 				}
 				switch x := rnd.intn(100); {
+				case x < 6:
+					calls[k] = call{op: "List"}
 				case x < getPct:
 					calls[k] = call{op: "Get", id: id}
 				case x < getPct+(100-getPct)*3/5:
@@ -277,6 +299,9 @@ func runRound(cfg roundCfg, round int, seed int64) (h *history, suspicious bool,
 			<-start
 			for _, c := range calls {
 				real := absIDs[c.id]
+				if c.op == "List" {
+					c.id = "list-of-" + p.name // no id: the per-id exclusion does not concern it
+				}
 				rec.log(p, event{E: "start", Op: c.op, ID: c.id, C: c.c})
 				switch c.op {
 				case "Get":
@@ -301,6 +326,31 @@ func runRound(cfg roundCfg, round int, seed int64) (h *history, suspicious bool,
 					} else {
 						rec.log(p, event{E: "end", St: "ok"})
 					}
+				case "List":
+					got, e := w.List()
+					if e != nil {
+						rec.log(p, event{E: "end", St: "error", Val: "error(" + e.Error() + ")", Ids: []string{}})
+						break
+					}
+					names := []string{}
+					for _, g := range got {
+						name := "foreign:" + g.String()
+						for a, r := range absIDs {
+							if r == g {
+								name = a
+							}
+						}
+						for _, nz := range noiseIDs {
+							if nz == g {
+								name = ""
+							}
+						}
+						if name != "" {
+							names = append(names, name)
+						}
+					}
+					sort.Strings(names)
+					rec.log(p, event{E: "end", St: "ok", Ids: names})
 				case "Delete":
 					if e := w.Delete(real); e != nil {
 						rec.log(p, event{E: "end", St: "error"})
@@ -375,9 +425,12 @@ func ndjson(hs []*history) ([]byte, []int) {
 	for _, h := range hs {
 		line++
 		firstLine = append(firstLine, line)
-		_ = enc.Encode(event{E: "reset"})
+		_ = enc.Encode(event{E: "reset", Ids: []string{}})
 		for _, e := range h.Events {
 			line++
+			if e.Ids == nil { // a history read back from a replay file
+				e.Ids = []string{}
+			}
 			_ = enc.Encode(e)
 		}
 	}
